@@ -148,3 +148,20 @@ CLAIMED["C15"] = dict(
     note="Trusted: the text oracle (standin/render.py); an escaped backslash and the TeX line separator are the same two characters, so labels are matched against the expected text with blanks optionally replaced by the separator. "
          "A genuine defect found here (nested colours) was repaired in /repo (fix: commit 259450a).",
 )
+
+
+CLAIMED["C01"]["text"] = (
+    "PROVED from the real AST (unbounded in species tree, table content and cost vector): the Bellman contracts of _compute_thl_try_speciation and "
+    "_compute_thl_try_duplication_transfer - after the call the cell (node, species) holds the minimum of its old value and of every placement of the two children priced by the documented event model "
+    "(speciation: children below the two different children of the species, one full loss per skipped edge beyond the first; duplication: both below; transfer: one below, one in an incomparable species), "
+    "under ALL exactly the optimal placements are retained, under ANY exactly one, and no other cell changes - with loop invariants over the species-tree enumeration, the combinators inlined, "
+    "Entry.update / combine / __iter__ and LowestCommonAncestor.distance / is_ancestor_of used through their proved contracts, and ghost cuts recorded in the sidecar. Also proved: Table.entry and the cost evaluator "
+    "(node_event, _cost_rec, cost). BOUNDED only (labelled): table fill order, decoding, re-ranking, the exhaustive solver and the enumerator generate_all are compared with an independent enumeration + recount of all "
+    "species mappings on all binary object trees <= 3 (4) leaves x species trees <= 3 (4) leaves plus 900 (9000) random inputs up to 5 x 4 leaves (validity, cost = minimum, each valid reconciliation exactly once, no exception), "
+    "and the same Bellman contracts are also evaluated at run time on random real tables.")
+CLAIMED["C01"]["note"] = (
+    "Trusted: pyvc encoding; z3/cvc5; tree axioms; assumed ete3 traverse / children contracts; assumed LowestCommonAncestor core (C17); ASSUMED contracts of Table / TableProxy / EntryProxy over an abstract cell map "
+    "(table[k0][k1].m(...) is desugared to Table.cell2_m(table, k0, k1, ...): the proxies are pure views), validated only by the bounded Table-proxies stand-in; info tags of different Python classes modelled as injections into one sort; "
+    "table values are never -inf (precondition). The lower-bound theorem from a Bellman-closed table to the minimum over all reconciliations is not proved. Four genuine defects found here were repaired in /repo (fix: commits).")
+CLAIMED["C05"]["text"] = CLAIMED["C05"]["text"].replace("Proof at the tag level:", "Proof at the tag level (entries and THL step functions):") + (
+    " The tag clauses of the two THL step functions (ALL: exactly the optimal child placements incl. ties that appear only after loss costs are added; ANY: exactly one) are PROVED as part of their Bellman contracts.")
